@@ -516,6 +516,9 @@ func (ps *PathSum) callStatic(s *psState, f *psFrame, x ssa.Instruction, callee 
 	}
 	inModule := strings.HasPrefix(pkg, modPath)
 	if inModule && len(o.Blocks) > 0 && f.depth < ps.maxDepth && !ps.noInline[o] && (pkg == modPath || pkg == modPath+"/internal/xmath" || ps.inlinePkgs[pkg]) {
+		if f.active(o) >= 2 {
+			return []*psOutcome{{S: s, Cut: true}}
+		}
 		if o.Name() == "NowNano" {
 			t := ps.sym("statnow")
 			bind(t)
